@@ -197,10 +197,16 @@ namespace pika::execution::experimental {
 
             bool add_op_state(async_rw_mutex_operation_state_base* op_state) noexcept
             {
+#if defined(PIKA_VERIF)
+                PIKA_VERIF_POINT(401, this, 0, 0);
+#endif
                 op_state->next = static_cast<async_rw_mutex_operation_state_base*>(
                     op_state_head.load(std::memory_order_acquire));
                 do {
                     if (op_state->next == static_cast<void*>(this)) { return false; }
+#if defined(PIKA_VERIF)
+                    PIKA_VERIF_POINT(402, this, 0, 0);
+#endif
                 } while (!op_state_head.compare_exchange_weak(
                     op_state->next, static_cast<void*>(op_state), std::memory_order_acq_rel));
 
@@ -209,6 +215,9 @@ namespace pika::execution::experimental {
 
             void done() noexcept
             {
+#if defined(PIKA_VERIF)
+                PIKA_VERIF_POINT(403, this, 0, 0);
+#endif
                 // `this` is not an async_rw_mutex_operation_state_base*, but is a known value to
                 // signal that the queue has been processed
                 auto* current = static_cast<async_rw_mutex_operation_state_base*>(
